@@ -15,7 +15,7 @@ ASSUMPTIONS = [
     'after an in-place change of particles update() is called before interpolate (documented contract); histories that do not are not interpolated',
     'periodic boxes at least twice the kernel support wide',
 ]
-READY = False
+READY = True
 DESIGN_REF = '6/C14'
 TECHNIQUE = 'Lean 4 proof over a hand-written model + bit-exact correspondence check'
 LEVEL_TEXT = ("Lean 4 theorems over every neighbour list, every ordered field, arbitrary kernel values, masses, "
